@@ -1,5 +1,7 @@
 package limiter
 
+import "strconv"
+
 // Sequential specification of the rate limiter, per key, on the coarse second clock.
 // Written from /repo/docs/middleware/limiter.md and the statement of property C13, NOT from
 // the middleware sources:
@@ -133,3 +135,95 @@ func (s *winState) refund(a algoCfg, ts, hitExp uint64, wasAdmitted bool) bool {
 	}
 	return true
 }
+
+// ---- two views of time
+
+// The middleware counts on a clock that ticks once per second. Requests that are not sent at
+// the same sub-second phase see differences on that clock that are up to one second off the
+// real differences, and an external storage expires entries in real time. So that no verdict
+// hinges on which of the two a reader has in mind, the state is kept twice: view 0 on the coarse
+// clock exactly as the property statement puts it (floor of the time), view 1 on a second clock
+// whose ticks are anchored at the instant the key's window was opened (real elapsed time, in
+// whole seconds since that instant). A request is only judged wrong when both views say so, and
+// a header is right when either view produces it. With all requests on one phase — the bulk of
+// the generated histories — the two views are identical.
+type dual struct {
+	s   [2]winState
+	phi int64 // sub-second phase (ns) of view 1's anchor
+}
+
+type dverdict struct{ v [2]verdict }
+
+func (d *dual) ts1(a algoCfg, t int64, openFresh bool) uint64 {
+	ts := uint64((t - d.phi) / 1e9)
+	s := &d.s[1]
+	fresh := s.exp == 0 || (!a.sliding && ts >= s.exp) || (a.sliding && ts >= s.exp+a.E)
+	if fresh && openFresh {
+		d.phi = t % 1e9
+		ts = uint64(t / 1e9)
+	}
+	return ts
+}
+
+// hit counts a request sent at t (unix nanoseconds).
+func (d *dual) hit(a algoCfg, t int64) dverdict {
+	var x dverdict
+	x.v[0] = d.s[0].hit(a, uint64(t/1e9))
+	x.v[1] = d.s[1].hit(a, d.ts1(a, t, true))
+	return x
+}
+
+func (d *dual) admitted() { d.s[0].admitted(); d.s[1].admitted() }
+
+// refund at t; reports whether view 0 still had the window of the hit.
+func (d *dual) refund(a algoCfg, t int64, x dverdict) bool {
+	ok := d.s[0].refund(a, uint64(t/1e9), x.v[0].exp, true)
+	d.s[1].refund(a, d.ts1(a, t, false), x.v[1].exp, true)
+	return ok
+}
+
+// admits: trunc = some view admits under the truncated reading (an admission is defensible);
+// real = every view admits even under the real-valued reading (a rejection is indefensible).
+func (x dverdict) admits(max int) (trunc, real bool) {
+	t0, r0 := x.v[0].admits(max)
+	t1, r1 := x.v[1].admits(max)
+	return t0 || t1, r0 && r1
+}
+
+func (x dverdict) weakAdmits(max int) bool { return x.v[0].weakAdmits(max) || x.v[1].weakAdmits(max) }
+
+// remainingOK: got is limit - rate (+1 when refunded) in some view.
+func (x dverdict) remainingOK(got, limit int, refunded bool) bool {
+	for _, v := range x.v {
+		w := limit - v.rate
+		if refunded {
+			w++
+		}
+		if got == w || (!v.exact && got == w-1) {
+			return true
+		}
+	}
+	return false
+}
+
+func (x dverdict) resetOK(got string) bool {
+	for _, v := range x.v {
+		if got == strconv.FormatUint(v.resetIn, 10) {
+			return true
+		}
+	}
+	return false
+}
+
+// late: the hit's window is over at t in some view (a refund then has nothing to take back).
+func (x dverdict) late(a algoCfg, d *dual, t int64) bool {
+	ts := [2]uint64{uint64(t / 1e9), uint64((t - d.phi) / 1e9)}
+	for i, v := range x.v {
+		if (!a.sliding && ts[i] >= v.exp) || (a.sliding && ts[i] >= v.exp+a.E) {
+			return true
+		}
+	}
+	return false
+}
+
+func (x dverdict) exact() bool { return x.v[0].exact && x.v[1].exact }
